@@ -64,6 +64,10 @@ def alphabet(name, ph=0.0):
         dph = {0.0: 0.0, 0.03: 0.125, 0.07: 0.25}[ph]
         # (0.5,0.5)-(3.5,4.5) is a 3-4-5 triangle: distance exactly 5 = 2 + 3 (contact), < 3 + 3 (overlap), > 2 + 2 (apart)
         return [([x + dph, y], r) for (x, y) in ((0.5, 0.5), (3.5, 4.5), (8.5, 0.5)) for r in (2.0, 3.0)], 16.0, 2
+    if name == "2d-cross":
+        # pairs facing each other across the y boundary and across the x boundary of the box (L = 5): they overlap / are close only
+        # under a metric that is periodic along THAT axis - decisive for grids with mixed periodicity
+        return [([2.2 + ph, 0.4], 0.6), ([2.2 + ph, 4.7], 0.6), ([0.4 + ph, 2.2], 0.6), ([4.7 + ph, 2.2], 0.6), ([2.2 + ph, 2.2], 0.6)], 5.0, 2
     if name == "2d":
         return [([x + ph, y], 0.6) for x in (0.5, 2.2, 4.1) for y in (0.5, 4.1)] + [([2.2 + ph, 2.2], 1.1)], 5.0, 2
     if name == "2d-full":
@@ -183,6 +187,7 @@ def make_blocks(tier, seed):
             if not light:
                 add("1d-small", 2, False, 2 if tier != "thorough" else 3, tv, how="ctor+append", explicit=nexp)
         add("2d", 2, False, 2, "half-offset", split=True)
+        add("2d-cross", 2, False, 2, "unit", min_len=2)
         add("2d", 1, True, 3, "unit")
         add("3d", 2, False, 2, "neg-int")
         # life cycles of the frames before tracking (see build)
